@@ -573,10 +573,10 @@ int token_case_replay(uint64_t code, int len, int limit)
 }
 
 /* ------------------------------------------------------------------ */
-/* C11 helpers: deep single-child chains and cycles are handled iteratively (no recursion in the harness) */
-cJSON *shim_make_chain(int containers, int pattern, int with_leaf)
+/* C11 helpers: deep "spines" and cycles are handled iteratively (no recursion in the harness).
+ * A spine is a chain of nested containers; at some levels scalar siblings precede the nested child. */
+cJSON *shim_make_chain(int containers, int pattern, int with_leaf, int sibling_every)
 {
-    /* `containers` nested single-child containers (pattern bit i%3 selects array/object), innermost holds a leaf or is empty */
     cJSON *root = NULL;
     cJSON *cur = NULL;
     int i;
@@ -593,13 +593,29 @@ cJSON *shim_make_chain(int containers, int pattern, int with_leaf)
         {
             root = n;
         }
-        else if (cur->type == cJSON_Object)
-        {
-            cJSON_AddItemToObject(cur, "k", n);
-        }
         else
         {
-            cJSON_AddItemToArray(cur, n);
+            if (sibling_every > 0 && (i % sibling_every) == 0)
+            {
+                if (cur->type == cJSON_Object)
+                {
+                    cJSON_AddItemToObject(cur, "s", cJSON_CreateString("sibling"));
+                    cJSON_AddItemToObject(cur, "n", cJSON_CreateNumber(i));
+                }
+                else
+                {
+                    cJSON_AddItemToArray(cur, cJSON_CreateString("sibling"));
+                    cJSON_AddItemToArray(cur, cJSON_CreateNumber(i));
+                }
+            }
+            if (cur->type == cJSON_Object)
+            {
+                cJSON_AddItemToObject(cur, "k", n);
+            }
+            else
+            {
+                cJSON_AddItemToArray(cur, n);
+            }
         }
         cur = n;
     }
@@ -622,86 +638,160 @@ cJSON *shim_make_chain(int containers, int pattern, int with_leaf)
     return root;
 }
 
-/* number of nodes along the first-child chain, bounded */
+/* the child through which the spine continues: the last sibling (bounded walk) */
+static const cJSON *spine_down(const cJSON *n)
+{
+    const cJSON *c = n->child;
+    int k = 0;
+    while (c != NULL && c->next != NULL && k < 8)
+    {
+        c = c->next;
+        k++;
+    }
+    return c;
+}
+
 long shim_chain_length(const cJSON *n, long bound)
 {
     long k = 0;
     while (n != NULL && k < bound)
     {
         k++;
-        n = n->child;
+        n = spine_down(n);
     }
     return k;
 }
 
-/* hash of the node structs (and key/string bytes) along the first-child chain, bounded by `bound` nodes */
+static uint64_t hash_node(uint64_t h, const cJSON *n)
+{
+    const unsigned char *p = (const unsigned char *)n;
+    size_t i;
+    const char *s;
+    for (i = 0; i < sizeof(cJSON); i++)
+    {
+        h ^= p[i];
+        h *= 1099511628211ULL;
+    }
+    for (s = n->string; s != NULL && *s; s++)
+    {
+        h ^= (unsigned char)*s;
+        h *= 1099511628211ULL;
+    }
+    for (s = n->valuestring; s != NULL && *s; s++)
+    {
+        h ^= (unsigned char)*s;
+        h *= 1099511628211ULL;
+    }
+    return h;
+}
+
+/* hash of the node structs (and key/string bytes) of the spine and its siblings, bounded by `bound` levels */
 uint64_t shim_chain_hash(const cJSON *n, long bound)
 {
     uint64_t h = 1469598103934665603ULL;
     long k = 0;
     while (n != NULL && k < bound)
     {
-        const unsigned char *p = (const unsigned char *)n;
-        size_t i;
-        for (i = 0; i < sizeof(cJSON); i++)
+        const cJSON *c;
+        int j = 0;
+        h = hash_node(h, n);
+        for (c = n->child; c != NULL && j < 8; c = c->next, j++)
         {
-            h ^= p[i];
-            h *= 1099511628211ULL;
-        }
-        if (n->string != NULL)
-        {
-            const char *s;
-            for (s = n->string; *s; s++)
+            if (c->next != NULL)
             {
-                h ^= (unsigned char)*s;
-                h *= 1099511628211ULL;
+                h = hash_node(h, c);
             }
         }
         k++;
-        n = n->child;
+        n = spine_down(n);
     }
     return h;
 }
 
-/* structural comparison of two single-child chains without recursion; 1 if equal in types, keys and leaf value, all links healthy */
+static int node_equal_distinct(const cJSON *a, const cJSON *b)
+{
+    if ((a->type & 0xFF) != (b->type & 0xFF) || (b->type & cJSON_IsReference))
+    {
+        return 0;
+    }
+    if ((a->string == NULL) != (b->string == NULL) || (a->string && strcmp(a->string, b->string) != 0))
+    {
+        return 0;
+    }
+    if ((a->valuestring == NULL) != (b->valuestring == NULL) || (a->valuestring && strcmp(a->valuestring, b->valuestring) != 0))
+    {
+        return 0;
+    }
+    if (a == b || (a->string != NULL && a->string == b->string && !(a->type & cJSON_StringIsConst)) ||
+        (a->valuestring != NULL && a->valuestring == b->valuestring))
+    {
+        return 0; /* shared memory */
+    }
+    if ((a->type & 0xFF) == cJSON_Number && a->valuedouble != b->valuedouble)
+    {
+        return 0;
+    }
+    return 1;
+}
+
+/* structural comparison of two spines without recursion; 1 if equal in types, keys, values, with healthy links in b */
 int shim_chain_equal(const cJSON *a, const cJSON *b, long bound)
 {
     long k = 0;
+    if (a == NULL || b == NULL || b->next != NULL || b->prev != NULL)
+    {
+        return 0;
+    }
     while (a != NULL && b != NULL && k < bound)
     {
-        if ((a->type & 0xFF) != (b->type & 0xFF) || (b->type & cJSON_IsReference))
+        const cJSON *x = a->child;
+        const cJSON *y = b->child;
+        const cJSON *lastx = NULL, *lasty = NULL;
+        int j = 0;
+        if (!node_equal_distinct(a, b))
         {
             return 0;
         }
-        if ((a->string == NULL) != (b->string == NULL) || (a->string && strcmp(a->string, b->string) != 0))
+        while (x != NULL && y != NULL && j < 8)
+        {
+            if (x->next != NULL || y->next != NULL)
+            {
+                if (!node_equal_distinct(x, y))
+                {
+                    return 0;
+                }
+            }
+            if (y->next != NULL && y->next->prev != y)
+            {
+                return 0;
+            }
+            lastx = x;
+            lasty = y;
+            x = x->next;
+            y = y->next;
+            j++;
+        }
+        if (x != NULL || y != NULL)
         {
             return 0;
         }
-        if (a == b || (a->string != NULL && a->string == b->string && !(a->type & cJSON_StringIsConst)))
-        {
-            return 0; /* shared memory */
-        }
-        if ((a->type & 0xFF) == cJSON_Number && a->valuedouble != b->valuedouble)
+        if (b->child != NULL && b->child->prev != lasty)
         {
             return 0;
         }
-        if (b->next != NULL || (k > 0 && b->prev != b) || (k == 0 && b->prev != NULL))
-        {
-            return 0; /* single child: prev designates itself; root: no links */
-        }
-        a = a->child;
-        b = b->child;
+        a = lastx;
+        b = lasty;
         k++;
     }
     return a == NULL && b == NULL;
 }
 
-/* n-th node along the first-child chain */
+/* n-th node along the spine */
 cJSON *shim_chain_node(cJSON *n, long index)
 {
     while (n != NULL && index > 0)
     {
-        n = n->child;
+        n = (cJSON *)spine_down(n);
         index--;
     }
     return n;
